@@ -51,7 +51,7 @@ Lemma name_forms_agree_k normpath k : split_kind_ok k = true -> forall s,
   file_parts_k normpath k (NPair h t) = file_parts_k normpath k (NStr s)
   /\ ((e = [] -> rsplit1 46 n = None) -> file_parts_k normpath k (NTriple h n e) = file_parts_k normpath k (NStr s)).
 Proof.
-  intros Hk s. destruct k as [c|c]; [|discriminate]. cbn [split_kind_ok] in Hk. apply N.eqb_eq in Hk. subst c.
+  intros Hk s. destruct k as [c|c|]; [|discriminate|discriminate]. cbn [split_kind_ok] in Hk. apply N.eqb_eq in Hk. subst c.
   exact (name_forms_agree normpath s).
 Qed.
 
